@@ -291,3 +291,23 @@ def diff_rows(a_vals, b_vals, tol=0.0, what="", rows=None):
             r = i if rows is None else rows[i]
             return f"{what}: row {r}: {x!r} vs {y!r}"
     return None
+
+
+def is_neutral(v, op, res_dtype):
+    """null/neutral marker accepted for rows or groups without any selected observation."""
+    if cmp.is_null(v):
+        return True
+    if op in ("sum", "count", "size", "cumsum", "cumcount") and v == 0:
+        return True
+    try:
+        name = str(res_dtype).lower().replace("boolean", "bool")  # polars spells Int32 / UInt8 / Boolean
+        dt = np.dtype(name)
+    except TypeError:
+        return False
+    if dt.kind == "i" and v == np.iinfo(dt).min:
+        return True
+    if dt.kind == "u" and v == np.iinfo(dt).max:
+        return True
+    if dt.kind == "b" and v is False:
+        return True
+    return False
